@@ -414,10 +414,12 @@ TResult run_modet(const Plan& plan) {
       void* pcs[RACE_DEPTH]; int n = sched_race_stack(i, wch, pcs, RACE_DEPTH);
       std::string st;
       for (int k = 0; k < n; ++k) {
-        char buf[512];
+        char buf[4096];
         __sanitizer_symbolize_pc(pcs[k], "%f %s:%l", buf, sizeof buf);
         std::string fr = buf;
-        if (fr.find("/include/trompeloeil/") != std::string::npos) { lib = true; if (tr.lib_frame.empty()) { tr.lib_frame = fr; } }
+        if (fr.find("/include/trompeloeil/") != std::string::npos || fr.compare(0, 13, "trompeloeil::") == 0) { lib = true; if (tr.lib_frame.empty()) { tr.lib_frame = fr; } }
+        if (fr.size() > 300) fr = fr.substr(0, 140) + " ... " + fr.substr(fr.size() - 120);
+        if (!st.empty() && st.size() >= fr.size() + 4 && st.compare(st.size() - fr.size() - 4, fr.size(), fr) == 0) continue;  // inlined duplicates
         st += fr; st += " <- ";
       }
       tr.stacks[wch] = st;
